@@ -236,6 +236,9 @@ class World:
     def bind(self, node):
         """bind the calling thread to node (single-MCU workloads: the main thread)"""
         _tls.node = node
+        for n in self.nodes:  # a node bound earlier from this controller thread has no thread of
+            if n is not node and n.thread is None:  # its own: it must not be waited for
+                n.done = True
         node.done = False
         self.current = node
         return node
